@@ -25,7 +25,7 @@ class K:
         return "K(%s)" % self.name
 
 
-MERGED = ["a", "b", "a;b", "TRASH", "Empty", "TrashNode", "a; b", "b;a", "c", ";"]
+MERGED = ["a", "b", "a;b", "a;b'", "TRASH", "Empty", "TrashNode", "a; b", "b;a", "c", ";", "a; b'"]
 MIXED = [1, "1", "1;2", 2, "2", (1, 2)]
 RESERVED_FA = ["Start0", "Start1", "TrashNode", "TrashNode0", "star_start", "Start2", "Empty", "Start"]
 TUPLES = [(0, "x"), ("p", 1), (0,), (1, "x"), ("p", 2), ()]
